@@ -235,7 +235,7 @@ fn case(bytes: &[u8], col: &mut Collector) -> Result<(), Failure> {
             let want = a_c * x;
             let own = (&a * big(&x)) % &q;
             if got != want || big(&got) != own {
-                return Err(Failure::new("C14:mul_by_a", format!("mul_by_a(x) != a * x for x = {}", spec.short()), json!({"x": spec.short(), "x_value": big(&x).to_string()})));
+                return Err(Failure::new("C14:mul_by_a", format!("mul_by_a(x) != a * x for x = {} ({})", if how == "value" { spec.short() } else { "element chosen by its Montgomery residue".to_string() }, big(&x)), json!({"x": spec.short(), "chosen_by": how, "x_value": big(&x).to_string()})));
             }
             col.class("mul_by_a");
             if how == "montgomery-residue" {
